@@ -24,8 +24,12 @@ Theorem C01_codec_roundtrip :
       rep_root any_inner env root m -> encode fmt_float any_inner env root m = Ok txt ->
       exists J, strict_parse txt = Some J /\
         (N.of_nat (jnest J) <= max_nesting ->
-         exists m', decode_tree parse_float parse_time env root J = Ok m' /\ equiv_root any_inner env root m m').
-Proof. exact codec_roundtrip. Qed.
+         exists m', decode_tree (dec_scalar parse_float parse_time) env root J = Ok m' /\ equiv_root any_inner env root m m').
+Proof.
+  intros fmt_float any_inner parse_float parse_time env Hflat Hnames Hfok Hfrt Htime Hinner.
+  exact (codec_roundtrip fmt_float any_inner (dec_scalar parse_float parse_time) env Hflat Hnames
+           (scalar_rt_own fmt_float parse_float parse_time Hfok Hfrt Htime) Hinner).
+Qed.
 Print Assumptions C01_codec_roundtrip.
 
 (* the premises about strconv and time.Parse are jointly satisfiable: printing the bit pattern in
@@ -53,10 +57,11 @@ Theorem C01_full_statement :
     forall root m, rep_root any_inner env root m ->
       exists txt J, encode fmt_float any_inner env root m = Ok txt /\ strict_parse txt = Some J /\
         (N.of_nat (jnest J) <= max_nesting ->
-         exists m', decode_tree parse_float parse_time env root J = Ok m' /\ equiv_root any_inner env root m m').
+         exists m', decode_tree (dec_scalar parse_float parse_time) env root J = Ok m' /\ equiv_root any_inner env root m m').
 Proof.
   intros fmt_float any_inner parse_float parse_time env Hflat Hnames Hfok Hfrt Htime Hinner.
-  exact (codec_full fmt_float any_inner parse_float parse_time env Hflat Hfok Hfrt Htime Hnames Hinner).
+  exact (codec_full fmt_float any_inner (dec_scalar parse_float parse_time) env Hflat
+           (scalar_rt_own fmt_float parse_float parse_time Hfok Hfrt Htime) Hnames Hinner).
 Qed.
 Print Assumptions C01_full_statement.
 Theorem C01_encode_succeeds :
@@ -64,7 +69,11 @@ Theorem C01_encode_succeeds :
     oneofs_flat env -> float_text_ok fmt_float -> float_roundtrip fmt_float parse_float ->
     time_parse_extends parse_time ->
     forall root m, rep_root any_inner env root m -> exists txt, encode fmt_float any_inner env root m = Ok txt.
-Proof. exact encode_total. Qed.
+Proof.
+  intros fmt_float any_inner parse_float parse_time env Hflat Hfok Hfrt Htime.
+  exact (encode_total fmt_float any_inner (dec_scalar parse_float parse_time) env Hflat
+           (scalar_rt_own fmt_float parse_float parse_time Hfok Hfrt Htime)).
+Qed.
 Print Assumptions C01_encode_succeeds.
 
 (* every scalar kind, every value of its documented domain: the printer's token is read back by
@@ -164,7 +173,7 @@ Definition rt_tree : jvalue := Eval vm_compute in
 Example C01_roundtrip_example :
   oneofs_flat rt_env /\ oneof_names_ok rt_env /\ rep_root rt_inner rt_env [82] rt_msg /\
   encode rt_fmt rt_inner rt_env [82] rt_msg = Ok rt_txt /\ strict_parse rt_txt = Some rt_tree /\
-  decode_tree rt_pf rt_pt rt_env [82] rt_tree = Ok rt_msg.
+  decode_tree (dec_scalar rt_pf rt_pt) rt_env [82] rt_tree = Ok rt_msg.
 Proof.
   split; [apply oneofs_flat_b_sound; vm_compute; reflexivity|].
   split; [apply oneof_names_ok_b_sound; vm_compute; reflexivity|].
